@@ -128,6 +128,25 @@ def key_selector(kind):
         r.hook(RING, '_get_key', scn.method_hook(get_key))
         r.hook(RING, '__contains__', scn.method_hook(lambda ex, st, o, a: [(st, E.VBool(INRING(ex.strseq(a[0]))))]))
         ids = [E.VStr(z=z3.Const('ISSUER_%d' % i, B)) for i in range(2)]
+        # the surroundings of the selected key are arbitrary: it may be a subkey whose primary key is loaded as well (the usual layout:
+        # certify-only primary, signing subkey) - the key handed out for a signature is still the one that carries the issuer key id
+        primary = E.VObj('pgpy.pgp.PGPKey', 'primary-of-the-selected-key')
+        ex._ids = {'primary-of-the-selected-key': 4001}
+        r.set('ring', '_keys', E.VDict([(E.VInt(4001), primary)]))
+
+        def parent(ex, st, o, a):
+            if o is primary:
+                return [(st, E.VNone())]
+            if 'selected_has_parent' in st.ghost:
+                return [(st, primary if st.ghost['selected_has_parent'] else E.VNone())]
+            s2 = st.clone()
+            st.ghost['selected_has_parent'], s2.ghost['selected_has_parent'] = True, False
+            hasp = z3.Bool('the_selected_key_is_a_subkey_of_a_loaded_primary')
+            st.pc.append(hasp)
+            s2.pc.append(z3.Not(hasp))
+            return [(st, primary), (s2, E.VNone())]
+        r.hook('pgpy.pgp.PGPKey', 'parent', parent)
+        r.hook('pgpy.pgp.PGPKey', '_parent', parent)
         if kind == 'signature':
             ident = E.VObj(SIG, 'sig')
             r.hook(SIG, 'signer', scn.const(ids[0]))
